@@ -269,7 +269,9 @@ func checkMsg(c wireCase) error {
 	in := c.Input
 	var m dns.Msg
 	var err error
-	buf := append([]byte{}, in...)
+	// (capacity = length: a read past the end of the input panics instead of finding what the
+	// allocator left behind it - "records all lie inside the input")
+	buf := exact(in, len(in))
 	alloc, p, hung := measured(func() { err = m.Unpack(buf) })
 	stage := "accepted"
 	if err != nil {
